@@ -128,6 +128,11 @@ def analyse(flat):
         elif role in ("para-comment", "top-comment"):
             pending_comments.append(symstr.show(t))
         elif role in ("blank-sep", "blank"):
+            if role == "blank-sep" and cur:
+                # comments at the end of a paragraph (before the blank line) belong to that paragraph
+                for c in pending_comments:
+                    comments.append((c, "end of the paragraph of %s" % cur[0][0]))
+                pending_comments = []
             blank_run += 1
         elif role == "indent":
             indents.append((cur[-1][0] if cur else None, symstr.show(t)))
@@ -136,7 +141,7 @@ def analyse(flat):
     if cur:
         paras.append(cur)
     for c in pending_comments:
-        comments.append((c, None))
+        comments.append((c, "end of the paragraph of %s" % cur[0][0] if cur and q in ("L2", "PC") else None))
     return paras, comments, indents, seps, None
 
 
@@ -149,6 +154,16 @@ LAYOUTS = {
         {"type": "field", "key": "N", "lines": [A("n1")], "tokens": [("KEY", symstr.lit("N")), ("COLON", symstr.lit(":")), ("NEWLINE", symstr.lit("\n")), ("INDENT", symstr.lit(" ")), ("VALUE", A("n1")), ("NEWLINE", symstr.lit("\n"))]},
         F_("M", ["m"]), Cm("about-b"), F_("B", [symstr.mk([("lit", ":"), ("atom", "b", "line")])])],
 }
+LAYOUTS["a continuation line holding only a tab"] = [
+    F_("S", ["s"]),
+    {"type": "field", "key": "D", "lines": [A("d1"), A("d3")],
+     "tokens": [("KEY", symstr.lit("D")), ("COLON", symstr.lit(":")), ("WHITESPACE", symstr.lit(" ")), ("VALUE", A("d1")), ("NEWLINE", symstr.lit("\n")),
+                ("INDENT", symstr.lit("\t")), ("NEWLINE", symstr.lit("\n")), ("INDENT", symstr.lit(" ")), ("VALUE", A("d3")), ("NEWLINE", symstr.lit("\n"))]},
+    F_("T", ["t"])]
+LAYOUTS["the paragraph that sorts first is last and ends without final newline (comment / value)"] = [
+    F_("M", ["m"]), blank(), F_("B", ["b"], final_newline=False)]
+LAYOUTS["the paragraph that sorts first is last and ends in a comment without final newline"] = [
+    F_("M", ["m"]), blank(), F_("B", ["b"]), {"type": "comment", "tokens": [("COMMENT", symstr.mk([("lit", "#"), ("atom", "tail", "line")]))]}]
 SETTINGS = []
 for ind in ("s1", "s4", "fnl"):
     for iel in (False, True):
